@@ -225,6 +225,8 @@ extern "C" void harness_main() {
       const int i = pick((int)live.size(), "eq-key"), j = pick((int)live.size(), "eq-value");
       if (i == j) continue;
       std::set<EntityUID> before; for (const auto u : t.List()) before.insert(u);
+      // constituents of a schema that is itself the result of an operation carry modification tracking
+      switch (pick(3, "tracked")) { case 1: t.Mods().Track(live[(size_t)i]); break; case 2: t.Mods().Track(live[(size_t)j]); break; default: break; }
       const auto tr = t.Ops().Equate(ops::EquationOptions{live[(size_t)i], live[(size_t)j]});
       if (!tr.has_value()) continue;
       for (const auto& [key, value] : *tr) {
